@@ -87,6 +87,33 @@ class BitEval:
             if op == "BitXor":
                 return (tl, [y if x == 0 else x if y == 0 else UNK for x, y in zip(a, b)])
             raise Unknown("op " + op)
+        if k == "Array":
+            es = [self.ev(e, env, st) for e in n["es"]]
+            if not es or any(len(b) != 8 for _, b in es):
+                raise Unknown("array of non-bytes")
+            return ("[u8]", [x for _, b in es for x in b])
+        if k == "Index":
+            t, b = self.ev(n["e"], env, st)
+            ti, bi = self.ev(n["i"], env, st)
+            if t != "[u8]" or any(x not in (0, 1) for x in bi):
+                raise Unknown("index")
+            i = sum(x << j for j, x in enumerate(bi))
+            if 8 * i + 8 > len(b):
+                raise Unknown("index range")
+            return ("u8", b[8 * i:8 * i + 8])
+        if k == "If" and peel(n["c"]).get("k") == "Let":
+            # `if let Ok(val) = T::try_from(x) { Ok(val) } else { Err(..) }`: on this target the conversion between the 64-bit types is total
+            lt = peel(n["c"])
+            init = peel(lt["e"])
+            pat = lt["pat"]
+            if init.get("k") == "Call" and callee(init) in ("core::convert::TryFrom::try_from", "core::convert::TryInto::try_into") \
+                    and pat.get("k") == "Variant" and pat.get("variant") == "Ok" and pat["subs"][0]["p"].get("k") == "Bind":
+                t0, b = self.ev(init["args"][-1], env, st)
+                t1 = pat["subs"][0]["p"].get("ty")
+                if t0 in WIDTH and t1 in WIDTH and WIDTH[t0] == WIDTH[t1] == len(b) and (t0 in SIGNED) == (t1 in SIGNED):
+                    env[pat["subs"][0]["p"]["v"]] = (t1, b)
+                    return self.ev(n["t"], env, st)
+            raise Unknown("if-let")
         if k == "Adt" and n.get("adt") == "core::result::Result" and n.get("variant") == "Ok":
             return self.ev(n["fields"][0]["e"], env, st)
         if k == "Call":
@@ -107,16 +134,36 @@ class BitEval:
             if len(b) != w:
                 raise Unknown("sink width")
             if (n.get("trait") or "").startswith("byteorder::") and w > 8 and "LittleEndian" not in " ".join(n.get("targs") or []):
-                raise Unknown("byte order")
+                if "BigEndian" not in " ".join(n.get("targs") or []):
+                    raise Unknown("byte order")
+                b = [x for i in range(w // 8 - 1, -1, -1) for x in b[8 * i:8 * i + 8]]      # most significant byte first
             st["out"].extend(b)
             return ("()", [])
         if prim and name.startswith("read_") and is_bo and len(args) == 1:
             w = WIDTH[prim]
-            if (n.get("trait") or "").startswith("byteorder::") and w > 8 and "LittleEndian" not in " ".join(n.get("targs") or []):
-                raise Unknown("byte order")
             b = [("s", st["pos"] + i) for i in range(w)]
+            if (n.get("trait") or "").startswith("byteorder::") and w > 8 and "LittleEndian" not in " ".join(n.get("targs") or []):
+                if "BigEndian" not in " ".join(n.get("targs") or []):
+                    raise Unknown("byte order")
+                b = [x for i in range(w // 8 - 1, -1, -1) for x in b[8 * i:8 * i + 8]]
             st["pos"] += w
             return (prim, b)
+        if c == "std::io::Write::write_all" and len(args) == 2:
+            t, b = self.ev(args[1], env, st)
+            if t != "[u8]":
+                raise Unknown("write_all of non-bytes")
+            st["out"].extend(b)
+            return ("()", [])
+        if c == "std::io::Read::read_exact" and len(args) == 2:
+            a = args[1]
+            while a.get("k") in ("Ref", "Deref", "Coerce"):
+                a = a["e"]
+            if a.get("k") != "Var" or a["v"] not in env or env[a["v"]][0] != "[u8]":
+                raise Unknown("read_exact target")
+            w = len(env[a["v"]][1])
+            env[a["v"]] = ("[u8]", [("s", st["pos"] + i) for i in range(w)])
+            st["pos"] += w
+            return ("()", [])
         if c in ("core::result::Result::Ok",) and args:
             return self.ev(args[-1], env, st)
         if name in ("to_bits", "from_bits") and args:
